@@ -521,4 +521,323 @@ theorem push_refines (cfg : Cfg) (hfs : cfg.fixIterSuffix = true) (e : EL) (p : 
         rw [List.drop_append_of_le_length hkt]
         simp [hostsL]
 
+/-! ### `hostlist_pop` with the iterator live (repaired D20) -/
+theorem hostrangePop_fields {r r' : HRange} {x : Str} (h : hostrangePop r = (some x, r')) (hg : r.Good)
+    (hne : r'.empty = false) : r'.width = r.width ∧ r'.hi ≤ r.hi ∧ r'.single = r.single := by
+  have hu : ULONG_MAX + 1 = U64 := by decide
+  unfold hostrangePop at h
+  split at h
+  · simp only [Prod.mk.injEq] at h; rw [← h.2]; exact ⟨rfl, Nat.le_refl _, rfl⟩
+  · rename_i hs
+    have hs' : r.single = false := by simpa using hs
+    obtain ⟨h1, h2⟩ := hg.2 hs'
+    split at h
+    · simp only [Prod.mk.injEq] at h
+      rw [← h.2] at hne ⊢
+      refine ⟨rfl, ?_, rfl⟩
+      simp only at hne ⊢
+      by_cases h0 : r.hi = 0
+      · exfalso
+        rw [h0] at hne
+        simp [HRange.empty, subU64_zero_one] at hne
+      · rw [subU64_of_le (by omega) (by omega)]; omega
+    · simp at h
+
+theorem popE_keep (cfg : Cfg) (D : List RObj) (o : RObj) (nh : Int) (nx : Nat) (its : List (Nat × ItSt)) (x : Str)
+    (r' : HRange) (hpos : nh > 0) (hp : hostrangePop o.r = (some x, r')) (hne : r'.empty = false) :
+    popE cfg ⟨D ++ [o], nh, nx, its⟩ = .ok (some x, ⟨D ++ [{ o with r := r' }], nh - 1, nx, its⟩) := by
+  unfold popE
+  simp only [hpos, ↓reduceIte, List.getLast?_append, List.getLast?_singleton, Option.some_or, hp, hne,
+    Bool.false_eq_true, List.dropLast_concat]
+
+theorem popE_gone (cfg : Cfg) (hfix : cfg.fixPopIter = true) (D : List RObj) (o : RObj) (nh : Int) (nx : Nat)
+    (its : List (Nat × ItSt)) (x : Str) (r' : HRange) (hpos : nh > 0) (hp : hostrangePop o.r = (some x, r'))
+    (he : r'.empty = true) :
+    popE cfg ⟨D ++ [o], nh, nx, its⟩ =
+      .ok (some x, deleteRange cfg ⟨D ++ [{ o with r := r' }], nh - 1, nx, its⟩ D.length) := by
+  unfold popE
+  simp only [hpos, ↓reduceIte, List.getLast?_append, List.getLast?_singleton, Option.some_or, hp, he, hfix,
+    List.dropLast_concat, List.length_append, List.length_singleton, Nat.add_sub_cancel]
+
+theorem dropLast_drop (l : List Str) (c : Nat) : l.dropLast.drop c = (l.drop c).dropLast := by
+  induction l generalizing c with
+  | nil => simp
+  | cons a l ih =>
+    cases c with
+    | zero => simp
+    | succ c =>
+      cases l with
+      | nil => simp
+      | cons b l => simp only [List.dropLast_cons₂, List.drop_succ_cons]; exact ih c
+
+/-- the cursor after a pop, and what it has left -/
+theorem pop_cursor (names : List Str) (x : Str) (B : List Str) (hn : names = B ++ [x]) (c : Nat) (hle : c ≤ names.length) :
+    B.drop (if c = names.length then c - 1 else c) = (names.drop c).dropLast := by
+  subst hn
+  by_cases hc : c = (B ++ [x]).length
+  · simp only [hc, ↓reduceIte]
+    simp
+  · simp only [hc, ↓reduceIte]
+    rw [← dropLast_drop, List.dropLast_concat]
+
+theorem hrAt_of_ids (e e' : EL) (h : e'.rs.map (·.id) = e.rs.map (·.id)) (j : Nat) :
+    e'.hrAt (j : Int) = e.hrAt (j : Int) := by
+  rw [hrAt_nat, hrAt_nat, ← List.getElem?_map, ← List.getElem?_map, h]
+
+/-- `hostlist_delete_range` (repaired) with the one iterator: the four cases -/
+theorem deleteRange_lt (cfg : Cfg) (hfix : cfg.fixRemoveDepth = true) (rs : List RObj) (nh : Int) (nx : Nat) (it : ItSt)
+    (n : Nat) (h : it.idx < (n : Int)) :
+    deleteRange cfg ⟨rs, nh, nx, [(0, it)]⟩ n = ⟨rs.eraseIdx n, nh, nx, [(0, it)]⟩ := by
+  unfold deleteRange
+  have h1 : ¬ (it.idx > (n : Int)) := by omega
+  have h2 : ¬ (it.idx = (n : Int)) := by omega
+  simp only [hfix, Bool.not_true, Bool.false_eq_true, ↓reduceIte, List.map_cons, List.map_nil]
+  rw [if_neg h1, if_neg h2]
+
+theorem deleteRange_gt (cfg : Cfg) (hfix : cfg.fixRemoveDepth = true) (rs : List RObj) (nh : Int) (nx : Nat) (it : ItSt)
+    (n : Nat) (h : it.idx > (n : Int)) :
+    deleteRange cfg ⟨rs, nh, nx, [(0, it)]⟩ n =
+      ⟨rs.eraseIdx n, nh, nx,
+        [(0, ⟨it.idx - 1, it.depth, EL.hrAt ⟨rs.eraseIdx n, nh, nx, [(0, it)]⟩ (it.idx - 1)⟩)]⟩ := by
+  unfold deleteRange
+  simp only [hfix, Bool.not_true, Bool.false_eq_true, ↓reduceIte, List.map_cons, List.map_nil]
+  rw [if_pos h]
+
+theorem deleteRange_eq0 (cfg : Cfg) (hfix : cfg.fixRemoveDepth = true) (rs : List RObj) (nh : Int) (nx : Nat) (it : ItSt)
+    (h : it.idx = 0) :
+    deleteRange cfg ⟨rs, nh, nx, [(0, it)]⟩ 0 =
+      ⟨rs.eraseIdx 0, nh, nx, [(0, EL.resetIt ⟨rs.eraseIdx 0, nh, nx, [(0, it)]⟩)]⟩ := by
+  unfold deleteRange
+  have h1 : ¬ (it.idx > ((0 : Nat) : Int)) := by omega
+  have h2 : it.idx = ((0 : Nat) : Int) := by omega
+  simp only [hfix, Bool.not_true, Bool.false_eq_true, ↓reduceIte, List.map_cons, List.map_nil]
+  rw [if_neg h1, if_pos h2]
+
+theorem deleteRange_eqS (cfg : Cfg) (hfix : cfg.fixRemoveDepth = true) (rs : List RObj) (nh : Int) (nx : Nat) (it : ItSt)
+    (m : Nat) (pv : RObj) (h : it.idx = ((m + 1 : Nat) : Int)) (hpv : (rs.eraseIdx (m + 1))[m]? = some pv) :
+    deleteRange cfg ⟨rs, nh, nx, [(0, it)]⟩ (m + 1) =
+      ⟨rs.eraseIdx (m + 1), nh, nx, [(0, ⟨it.idx - 1, (subU64 pv.r.hi pv.r.lo : Nat), some pv.id⟩)]⟩ := by
+  unfold deleteRange
+  have h1 : ¬ (it.idx > ((m + 1 : Nat) : Int)) := by omega
+  simp only [hfix, Bool.not_true, Bool.false_eq_true, ↓reduceIte, List.map_cons, List.map_nil]
+  rw [if_neg h1, if_pos h]
+  simp only [Nat.add_sub_cancel, hpv]
+
+/-- POP (repaired D20): `hostlist_pop` with the iterator live answers the last name, the list loses
+    it, and the iterator keeps what it had left minus that host — also when it stood on it -/
+theorem pop_refines (cfg : Cfg) (hD19 : cfg.fixRemoveDepth = true) (hD20 : cfg.fixPopIter = true) (e : EL)
+    (p : EditSpec.PL) (c : Nat) (fresh : Bool) (h : Ref cfg e p c fresh) (hf : ∀ r ∈ e.ranges, r.ShiftFits) :
+    ∃ e', popE cfg e = .ok ((EditSpec.pop p).1, e') ∧
+      Ref cfg e' (EditSpec.pop p).2
+        (if p.names = [] then c else if c = p.names.length then c - 1 else c) false := by
+  obtain ⟨i, k, hc, hrem, _⟩ := h.pos
+  obtain ⟨e0, hpop0, hh0, hg0, _⟩ := popE_hosts cfg e h.good hf
+  obtain ⟨rs, nh, nx, its⟩ := e
+  have hits : its = [(0, ⟨(i : Int), (k : Int) - 1, EL.hrAt ⟨rs, nh, nx, its⟩ (i : Int)⟩)] := hc
+  rcases List.eq_nil_or_concat rs with hnil | ⟨D, o, hD⟩
+  · -- the empty list
+    subst hnil
+    have hn0 : p.names = [] := by rw [← h.hosts]; rfl
+    have hnh : nh = 0 := by have := h.good.2; simpa [EL.hosts, EL.ranges] using this
+    refine ⟨⟨[], nh, nx, its⟩, ?_, ?_⟩
+    · unfold popE EditSpec.pop
+      simp [hnh, hn0]
+    · have : EditSpec.pop p = (none, p) := by unfold EditSpec.pop; simp [hn0]
+      rw [this]
+      simp only [hn0, ↓reduceIte]
+      exact ⟨h.ids, h.good, h.full, h.hosts, h.cur, h.le, i, k, hc, hrem, by intro hf'; simp at hf'⟩
+  · rw [List.concat_eq_append] at hD
+    subst hD
+    have hog : o.r.Good := h.good.1 o.r (by simp [EL.ranges])
+    have hof : o.r.ShiftFits := hf o.r (by simp [EL.ranges])
+    obtain ⟨x, r', hp, hcase⟩ := hostrangePop_spec hog hof
+    have hranges : EL.ranges ⟨D ++ [o], nh, nx, its⟩ = D.map (·.r) ++ [o.r] := by simp [EL.ranges]
+    have hDl : (D.map (·.r)).length = D.length := by simp
+    have hnames : p.names = hostsL (D.map (·.r)) ++ o.r.hosts := by
+      rw [← h.hosts]
+      show hostsL (EL.ranges _) = _
+      rw [hranges, hostsL_append]; simp [hostsL]
+    have hpos : nh > 0 := by
+      have h2 : nh = ((EL.hosts ⟨D ++ [o], nh, nx, its⟩).length : Int) := h.good.2
+      have hpp := hog.hosts_pos
+      have h1 : (EL.hosts ⟨D ++ [o], nh, nx, its⟩).length = (hostsL (D.map (·.r))).length + o.r.hosts.length := by
+        rw [h.hosts, hnames]; simp
+      omega
+    have hnd : ((D ++ o :: []).map (·.id)).Nodup ∧ ∀ y ∈ D ++ o :: [], y.id < nx := h.ids
+    rw [hranges] at hrem
+    -- the plain list's side
+    have hB : ∃ B, p.names = B ++ [x] := by
+      rcases hcase with ⟨_, hx⟩ | ⟨_, _, _, hx⟩
+      · exact ⟨hostsL (D.map (·.r)), by rw [hnames, hx]⟩
+      · exact ⟨hostsL (D.map (·.r)) ++ r'.hosts, by rw [hnames, hx, List.append_assoc]⟩
+    obtain ⟨B, hBn⟩ := hB
+    have hne : p.names ≠ [] := by rw [hBn]; simp
+    have hlast : p.names.getLast? = some x := by rw [hBn]; simp
+    have hspec : EditSpec.pop p = (some x, p.delPos (p.names.length - 1)) := by
+      unfold EditSpec.pop; rw [hlast]
+    have hlen : p.names.length = B.length + 1 := by rw [hBn]; simp
+    have hdn : (p.delPos (p.names.length - 1)).names = B := by
+      show p.names.eraseIdx (p.names.length - 1) = B
+      rw [hBn]
+      have : (B ++ [x]).length - 1 = B.length := by simp
+      rw [this, eraseIdx_mid]; simp
+    have hdc : (p.delPos (p.names.length - 1)).cur =
+        [(0, if c = p.names.length then c - 1 else c)] := by
+      unfold EditSpec.PL.delPos; rw [h.cur]
+      have := h.le
+      by_cases hcl : c = p.names.length
+      · have : c > p.names.length - 1 := by omega
+        subst hcl
+        simp only [List.map_cons, List.map_nil, this, ↓reduceIte]
+      · have : ¬ c > p.names.length - 1 := by omega
+        simp [hcl, this]
+    have hc'le : (if c = p.names.length then c - 1 else c) ≤ B.length := by
+      have := h.le
+      split <;> omega
+    have hcursor := pop_cursor p.names x B hBn c h.le
+    rw [hspec]
+    simp only [hne, ↓reduceIte]
+    -- the model's side: the same computation `popE_hosts` speaks about
+    have hhosts0 : e0.hosts = B := by
+      rw [hh0, h.hosts, hBn]; simp
+    rw [hits] at hpop0 ⊢
+    rcases hcase with ⟨he, hx⟩ | ⟨hnee, hg', hf', hx⟩
+    · -- the last record goes away
+      have hcomp := popE_gone cfg hD20 D o nh nx [(0, ⟨(i : Int), (k : Int) - 1, EL.hrAt ⟨D ++ [o], nh, nx, its⟩ (i : Int)⟩)] x r' hpos hp he
+      rw [hcomp] at hpop0 ⊢
+      have herase : (D ++ [({ o with r := r' } : RObj)]).eraseIdx D.length = D := by
+        rw [eraseIdx_mid]; simp
+      have hids' := ids_erase D [] o nx hnd
+      have hBD : B = hostsL (D.map (·.r)) := by
+        have := hnames; rw [hBn, hx] at this
+        exact List.append_cancel_right this
+      have hfull' : ∀ q ∈ D.map (·.r), q.PrintsFull cfg := fun q hq => h.full q (by rw [hranges]; simp [hq])
+      have hbase : ∀ (it : Nat × ItSt), e0 = ⟨D, nh - 1, nx, [it]⟩ →
+          EL.IdsOk ⟨D, nh - 1, nx, [it]⟩ ∧ EL.Good ⟨D, nh - 1, nx, [it]⟩ ∧
+          (∀ q ∈ EL.ranges ⟨D, nh - 1, nx, [it]⟩, q.PrintsFull cfg) ∧
+          EL.hosts ⟨D, nh - 1, nx, [it]⟩ = (p.delPos (p.names.length - 1)).names := by
+        intro it he0
+        refine ⟨by simpa [EL.IdsOk] using hids', by rw [← he0]; exact hg0, by simpa [EL.ranges] using hfull', ?_⟩
+        rw [← he0, hhosts0, hdn]
+      have hremD : ∀ j kk, j < D.length → remaining (D.map (·.r) ++ [o.r]) j kk = remaining (D.map (·.r)) j kk ++ [x] := by
+        intro j kk hj
+        rw [remaining_append _ _ _ _ (by rw [hDl]; exact hj)]
+        simp [hostsL, hx]
+      by_cases hilt : i < D.length
+      · -- the iterator stands before the record that goes away
+        rw [deleteRange_lt cfg hD19 _ _ _ _ _ (by show (i : Int) < (D.length : Int); omega), herase] at hpop0 ⊢
+        simp only [Except.ok.injEq, Prod.mk.injEq] at hpop0
+        obtain ⟨b1, b2, b3, b4⟩ := hbase _ hpop0.2.symm
+        refine ⟨_, rfl, ⟨b1, b2, b3, b4, hdc, by rw [hdn]; exact hc'le, i, k, ?_, ?_, by intro hf'; simp at hf'⟩⟩
+        · exact coh_mk D (nh - 1) nx i k _ _ _ rfl rfl (by
+            rw [hrAt_nat]
+            simp [List.getElem?_append_left hilt])
+        · show remaining (D.map (·.r)) i k = _
+          rw [hdn, hcursor, ← hrem, hremD i k hilt, List.dropLast_concat]
+      · by_cases hieq : i = D.length
+        · subst hieq
+          -- what the iterator had left was at most x
+          have hold : (remaining (D.map (·.r) ++ [o.r]) D.length k).dropLast = [] := by
+            have e2 : D.map (·.r) ++ [o.r] = D.map (·.r) ++ o.r :: [] := rfl
+            rw [e2, ← hDl, remaining_mid, hx]
+            cases k with
+            | zero => simp [hostsL]
+            | succ k => simp [hostsL]
+          rcases List.eq_nil_or_concat D with hDn | ⟨D0, pv, hD0⟩
+          · subst hDn
+            simp only [List.length_nil] at hpop0 ⊢ herase
+            rw [deleteRange_eq0 cfg hD19 _ _ _ _ (by rfl), herase] at hpop0 ⊢
+            simp only [Except.ok.injEq, Prod.mk.injEq] at hpop0
+            obtain ⟨b1, b2, b3, b4⟩ := hbase _ hpop0.2.symm
+            refine ⟨_, rfl, ⟨b1, b2, b3, b4, hdc, by rw [hdn]; exact hc'le, 0, 0, ?_, ?_, by intro hf'; simp at hf'⟩⟩
+            · exact coh_mk [] (nh - 1) nx 0 0 _ _ _ rfl (by simp) (by simp [EL.hrAt])
+            · show remaining (([] : List RObj).map (·.r)) 0 0 = _
+              rw [hdn, hcursor, ← hrem]
+              simp only [List.map_nil, List.length_nil] at hold ⊢
+              rw [hold]
+              exact remaining_none (by simp)
+          · rw [List.concat_eq_append] at hD0
+            subst hD0
+            have hnz : (D0 ++ [pv]).length = D0.length + 1 := by simp
+            rw [hnz] at hpop0 herase ⊢
+            have hprev' : ((D0 ++ [pv] ++ [({ o with r := r' } : RObj)]).eraseIdx (D0.length + 1))[D0.length]? = some pv := by
+              rw [herase]; simp
+            rw [deleteRange_eqS cfg hD19 _ _ _ _ D0.length pv (by rfl) hprev', herase] at hpop0 ⊢
+            simp only [Except.ok.injEq, Prod.mk.injEq] at hpop0
+            obtain ⟨b1, b2, b3, b4⟩ := hbase _ hpop0.2.symm
+            have hpg : pv.r.Good := h.good.1 pv.r (by rw [hranges]; simp)
+            refine ⟨_, rfl, ⟨b1, b2, b3, b4, hdc, by rw [hdn]; exact hc'le, D0.length, pv.r.hosts.length, ?_, ?_,
+              by intro hf'; simp at hf'⟩⟩
+            · exact coh_mk (D0 ++ [pv]) (nh - 1) nx D0.length pv.r.hosts.length _ _ _
+                (by show ((D0.length + 1 : Nat) : Int) - 1 = (D0.length : Int); omega)
+                (by have := hpg.span; omega) (by simp)
+            · show remaining ((D0 ++ [pv]).map (·.r)) D0.length pv.r.hosts.length = _
+              rw [hdn, hcursor, ← hrem, hold]
+              have e3 : (D0 ++ [pv]).map (·.r) = D0.map (·.r) ++ pv.r :: [] := by simp
+              have hl0 : (D0.map (·.r)).length = D0.length := by simp
+              rw [e3, ← hl0, remaining_mid]
+              simp [hostsL]
+        · -- the iterator had already left the list
+          have hgt : i > D.length := by omega
+          rw [deleteRange_gt cfg hD19 _ _ _ _ _ (by show (i : Int) > (D.length : Int); omega), herase] at hpop0 ⊢
+          simp only [Except.ok.injEq, Prod.mk.injEq] at hpop0
+          obtain ⟨b1, b2, b3, b4⟩ := hbase _ hpop0.2.symm
+          refine ⟨_, rfl, ⟨b1, b2, b3, b4, hdc, by rw [hdn]; exact hc'le, i - 1, k, ?_, ?_, by intro hf'; simp at hf'⟩⟩
+          · exact coh_mk D (nh - 1) nx (i - 1) k _ _ _ (by show (i : Int) - 1 = ((i - 1 : Nat) : Int); omega) rfl (by
+              have : ((i : Int) - 1) = ((i - 1 : Nat) : Int) := by omega
+              rw [this, hrAt_nat])
+          · show remaining (D.map (·.r)) (i - 1) k = _
+            have hn1 : (D.map (·.r))[i - 1]? = none := by simp; omega
+            have hn2 : (D.map (·.r) ++ [o.r])[i]? = none := by simp; omega
+            rw [hdn, hcursor, ← hrem, remaining_none hn1, remaining_none hn2]
+            rfl
+    · -- the last record keeps hosts: the iterator is not touched
+      have hcomp := popE_keep cfg D o nh nx [(0, ⟨(i : Int), (k : Int) - 1, EL.hrAt ⟨D ++ [o], nh, nx, its⟩ (i : Int)⟩)] x r' hpos hp hnee
+      rw [hcomp] at hpop0 ⊢
+      simp only [Except.ok.injEq, Prod.mk.injEq] at hpop0
+      obtain ⟨fw, fh, fs⟩ := hostrangePop_fields hp hog hnee
+      have hids' := ids_shrink D [] o r' nx hnd
+      have hfull' : ∀ q ∈ D.map (·.r) ++ [r'], q.PrintsFull cfg := by
+        intro q hq
+        simp only [List.mem_append, List.mem_singleton] at hq
+        rcases hq with hq | rfl
+        · exact h.full q (by rw [hranges]; simp [hq])
+        · exact narrow_of_le (h.full o.r (by rw [hranges]; simp)) fw fh fs
+      refine ⟨_, rfl, ⟨by simpa [EL.IdsOk] using hids', by rw [hpop0.2]; exact hg0,
+        by simpa [EL.ranges] using hfull', by rw [hpop0.2, hhosts0, hdn], hdc, by rw [hdn]; exact hc'le,
+        i, k, ?_, ?_, by intro hf'; simp at hf'⟩⟩
+      · exact coh_mk (D ++ [{ o with r := r' }]) (nh - 1) nx i k (i : Int) ((k : Int) - 1)
+          (EL.hrAt ⟨D ++ [o], nh, nx, its⟩ (i : Int)) rfl rfl (by
+          rw [hrAt_nat, ← List.getElem?_map, ← List.getElem?_map]
+          simp)
+      · show remaining ((D ++ [({ o with r := r' } : RObj)]).map (·.r)) i k = _
+        have e4 : (D ++ [({ o with r := r' } : RObj)]).map (·.r) = D.map (·.r) ++ [r'] := by simp
+        rw [e4, hdn, hcursor, ← hrem]
+        by_cases hilt : i < D.length
+        · rw [remaining_append _ _ _ _ (by rw [hDl]; exact hilt), remaining_append _ _ _ _ (by rw [hDl]; exact hilt)]
+          simp only [hostsL, List.flatMap_cons, List.flatMap_nil, List.append_nil, hx]
+          rw [← List.append_assoc, List.dropLast_concat]
+        · by_cases hieq : i = D.length
+          · subst hieq
+            have e5 : D.map (·.r) ++ [r'] = D.map (·.r) ++ r' :: [] := rfl
+            have e6 : D.map (·.r) ++ [o.r] = D.map (·.r) ++ o.r :: [] := rfl
+            rw [e5, e6, ← hDl, remaining_mid, remaining_mid, hx]
+            simp only [hostsL, List.flatMap_nil, List.append_nil]
+            by_cases hk : k ≤ r'.hosts.length
+            · rw [List.drop_append_of_le_length hk, List.dropLast_concat]
+            · have d1 : r'.hosts.drop k = [] := List.drop_eq_nil_iff.mpr (by omega)
+              have d2 : (r'.hosts ++ [x]).drop k = [] := List.drop_eq_nil_iff.mpr (by simp; omega)
+              rw [d1, d2]; rfl
+          · have hn1 : (D.map (·.r) ++ [r'])[i]? = none := by simp; omega
+            have hn2 : (D.map (·.r) ++ [o.r])[i]? = none := by simp; omega
+            rw [remaining_none hn1, remaining_none hn2]; rfl
+
+/-- NEW: `hostlist_iterator_create` on a list without iterators -/
+theorem new_refines (cfg : Cfg) (e : EL) (hid : e.IdsOk) (hg : e.Good) (hf : ∀ q ∈ e.ranges, q.PrintsFull cfg)
+    (hits : e.its = []) : Ref cfg (itNew e 0) (EditSpec.itNew ⟨e.hosts, []⟩ 0) 0 false := by
+  refine ⟨hid, hg, hf, rfl, rfl, Nat.zero_le _, 0, 0, coh_new e hits, ?_, by intro h; simp at h⟩
+  show remaining e.ranges 0 0 = _
+  rw [remaining_zero]
+  rfl
+
 end PdshVerif.Hostlist
